@@ -3,20 +3,14 @@
    pattern strings by re's own parser): for ALL strings, not only a scope. *)
 From Coq Require Import ZArith List Bool Lia.
 From PTK Require Import Lib.Sx Lib.Py Lib.C03_Str Lib.C03_Regex Gen.C03_AnsiSequences Gen.C03_Regexes
-  Model.C03_Vt100Parser Proofs.C03_Lossless.
+  Model.C03_Vt100Parser Model.C03_RegexMatch Proofs.C03_Lossless.
 Import ListNotations.
 Open Scope Z_scope.
 
 (* ---------------------------------------------------------------------- *)
 (* semantics: the language of a regular expression (whole-string match) *)
 
-Fixpoint cset_mem (s : cset) (c : Z) : bool :=
-  match s with
-  | CChr x => c =? x
-  | CDigit => is_digit c
-  | CAny => not_nl c
-  | CUnion a b => cset_mem a c || cset_mem b c
-  end.
+(* [cset_mem] is defined in Model/C03_RegexMatch.v *)
 
 Inductive matches : re -> str -> Prop :=
 | MEps : matches REps []
